@@ -464,6 +464,46 @@ def constructible_collisions():
     return found
 
 
+def check_key_overlaps(pq, qids):
+    """Task keys are names too: two DIFFERENT queries computed in one graph (dask.compute(a, b), concat) are merged by
+    key, so no helper key (split pieces, shuffle stages, …) of one may stand for another task in the other.  Every pool
+    query is paired with each of its single-parameter variations."""
+    from harness.render import Names, rtask
+
+    fails, n = [], 0
+    for q in qids:
+        nvar = len(sp.POOL[q][2])
+        if not nvar:
+            continue
+        try:
+            forms = [sp.build(q, pq, v).expr.optimize(fuse=False) for v in [None] + list(range(nvar))]
+        except Exception:  # noqa: BLE001
+            continue
+        seen = {}
+        for vi, e in enumerate(forms):
+            stack, names_seen = [e], set()
+            while stack:
+                x = stack.pop()
+                if x._name in names_seen:
+                    continue
+                names_seen.add(x._name)
+                stack.extend(x.dependencies())
+                try:
+                    layer = x._layer()
+                except Exception:  # noqa: BLE001
+                    continue
+                for k, v in layer.items():
+                    n += 1
+                    desc = rtask(v, Names("", []))
+                    if k in seen and seen[k][1] != desc and seen[k][0] != vi:
+                        fails.append(Failure(sig={"kind": "task-key-collision", "class": type(x).__name__},
+                                             case={"check": "keys", "q": q},
+                                             detail=f"{q}: key {k!r} stands for different tasks in variation {seen[k][0]} and {vi} ({type(x).__name__})"))
+                        break
+                    seen.setdefault(k, (vi, desc))
+    return fails, n
+
+
 def support(ctx, broken):
     sup = Support()
     pq = sp.tmp_parquet()
@@ -487,6 +527,11 @@ def support(ctx, broken):
     fails, n = check_variations(pq, qids)
     sup.executed += n
     sup.distribution["variations"] = n
+    sup.failures += fails
+    # (b') helper task keys of a query and of its variations never collide
+    fails, n = check_key_overlaps(pq, qids)
+    sup.executed += n
+    sup.distribution["task-keys-compared"] = n
     sup.failures += fails
     # (c) collision candidates (public API) and constructible collisions (internal API)
     for site in CANDIDATES:
@@ -519,6 +564,9 @@ def replay(case):
     if case["check"] == "variation":
         fails, _ = check_variations(pq, [case["q"]])
         fails = [f for f in fails if f.case["v"] == case["v"]]
+        return fails[0] if fails else None
+    if case["check"] == "keys":
+        fails, _ = check_key_overlaps(pq, [case["q"]])
         return fails[0] if fails else None
     if case["check"] == "candidate":
         msg = run_candidate(case["site"])
